@@ -367,3 +367,46 @@ pub fn hyrax_open_masks(cfg: &Cfg) -> Verdict {
     }
     Verdict::Hold
 }
+
+/// One `commit` call over a batch that alternates hiding and non-hiding polynomials (cfg.polys): every
+/// non-hiding commitment is free of RNG draws and equals the commitment made alone without an RNG, every
+/// hiding commitment carries RNG draws that no other commitment of the batch carries.
+pub fn mixed_batch<S: Sch>(cfg: &Cfg) -> Verdict {
+    let w = match build::<S>(cfg) {
+        Ok(w) => w,
+        Err(v) => return v,
+    };
+    let rngs = |x: SF| -> std::collections::BTreeSet<u32> { term_vars(x).into_iter().filter(|(_, k)| *k == 2).map(|(v, _)| v).collect() };
+    let mut seen: std::collections::BTreeSet<u32> = Default::default();
+    for i in 0..w.lps.len() {
+        let terms = terms_of(w.comms[i].commitment());
+        let draws: std::collections::BTreeSet<u32> = terms.iter().flat_map(|t| rngs(*t)).collect();
+        if cfg.polys[i].hiding.is_none() {
+            if !draws.is_empty() {
+                return Verdict::viol("blinded-without-hiding-bound", format!("commitment {} (no hiding bound) of a mixed batch carries RNG draws", i));
+            }
+            let plain = LabeledPolynomial::new(w.lps[i].label().clone(), w.lps[i].polynomial().clone(), w.lps[i].degree_bound(), None);
+            match catch(|| PCOf::<S>::commit(&w.ck, [&plain], None)) {
+                Ok(Ok((c, _))) => {
+                    if terms_of(c[0].commitment()) != terms {
+                        return Verdict::viol("nonhiding-not-deterministic", format!("commitment {} (no hiding bound) of a mixed batch differs from the commitment made alone", i));
+                    }
+                }
+                _ => return Verdict::viol("commit-err", "non-hiding commit without an RNG failed"),
+            }
+            let st = terms_of(&w.states[i]);
+            if st.iter().any(|t| !rngs(*t).is_empty()) {
+                return Verdict::viol("state-blinded-without-hiding-bound", format!("commitment state {} (no hiding bound) carries RNG draws", i));
+            }
+        } else {
+            if draws.is_empty() {
+                return Verdict::viol("unblinded", format!("commitment {} (hiding) of a mixed batch carries no RNG draw", i));
+            }
+            if draws.iter().any(|d| seen.contains(d)) {
+                return Verdict::viol("blinding-shared", format!("commitment {} (hiding) reuses RNG draws of another commitment of the batch", i));
+            }
+            seen.extend(draws.iter().copied());
+        }
+    }
+    Verdict::Hold
+}
